@@ -101,6 +101,13 @@ func (p *Prog) findVBIEncoder() *vbiEncoder {
 						enc.contBit = k
 						low = bo.X
 						enc.contWhy = "the continuation bit is set unconditionally"
+						// the other canonical form: every byte written inside the loop is followed by another one —
+						// the loop runs exactly while the value is >= radix, and the last byte (value < radix) is
+						// written after the loop without the bit
+						if p.vbiTailForm(fn, l, enc) {
+							enc.contOK = true
+							enc.contWhy = ""
+						}
 					}
 				} else {
 					low = stored
@@ -373,4 +380,67 @@ func (p *Prog) dryRunCallValue(v ssa.Value) (*ssa.Function, ssa.Value, bool) {
 		return sc, call.Call.Args[0], true
 	}
 	return nil, nil, false
+}
+
+// vbiTailForm: `for ; x >= R; x /= R { emit(x%R | C) }; emit(x)` — the loop is entered/continued exactly while
+// the running value is at least the radix (so a byte written in the loop is never the last one), it is left on
+// that test only, and exactly one byte, the running value itself (< R, possibly masked with R-1), is stored after it.
+func (p *Prog) vbiTailForm(fn *ssa.Function, l *Loop, enc *vbiEncoder) bool {
+	xphi, ok := enc.quot.X.(*ssa.Phi)
+	if !ok {
+		return false
+	}
+	exits := l.ExitEdges()
+	if len(exits) != 1 {
+		return false
+	}
+	iff, ok := terminator(exits[0].from).(*ssa.If)
+	if !ok {
+		return false
+	}
+	bo, ok := iff.Cond.(*ssa.BinOp)
+	if !ok || bo.X != ssa.Value(xphi) {
+		return false
+	}
+	K, isC := constInt(bo.Y)
+	if !isC {
+		return false
+	}
+	exitIdx := 1
+	if exits[0].from.Succs[0] == exits[0].to {
+		exitIdx = 0
+	}
+	switch {
+	case bo.Op == token.GEQ && exitIdx == 1 && K == enc.radix: // continue while x >= R
+	case bo.Op == token.GTR && exitIdx == 1 && K == enc.radix-1: // continue while x > R-1
+	case bo.Op == token.LSS && exitIdx == 0 && K == enc.radix: // leave when x < R
+	case bo.Op == token.LEQ && exitIdx == 0 && K == enc.radix-1:
+	default:
+		return false
+	}
+	// exactly one byte store outside the loop, dominated by the exit, of the running value
+	n := 0
+	okTail := false
+	for _, b := range fn.Blocks {
+		if l.Blocks[b] {
+			continue
+		}
+		for _, ins := range b.Instrs {
+			st, ok := ins.(*ssa.Store)
+			if !ok {
+				continue
+			}
+			if _, isIA := st.Addr.(*ssa.IndexAddr); !isIA {
+				continue
+			}
+			n++
+			v := stripConvs(st.Val)
+			if v == ssa.Value(xphi) {
+				okTail = exits[0].to.Dominates(b)
+			} else if x, m, isM := maskOf(v); isM && x == ssa.Value(xphi) && m == enc.radix-1 {
+				okTail = exits[0].to.Dominates(b)
+			}
+		}
+	}
+	return n == 1 && okTail
 }
